@@ -9,7 +9,11 @@ id="$1"; patch="$(readlink -f "$2")"; tier="${3:-quick}"
 wt=$(mktemp -d /tmp/seedwt.XXXXXX)
 git -C /repo worktree add -q --detach "$wt" HEAD || exit 2
 if ! git -C "$wt" apply "$patch"; then echo "patch does not apply"; git -C /repo worktree remove --force "$wt"; exit 2; fi
+# the facts file regenerated from the scratch tree must not stay behind
+facts="lean/Golib/Gen/Facts$id.lean"; bak=""
+if [ -f "$facts" ]; then bak=$(mktemp); cp "$facts" "$bak"; fi
 VERIF_REPO="$wt" ./check "$id" "$tier"; e=$?
+if [ -n "$bak" ]; then cmp -s "$bak" "$facts" || cp "$bak" "$facts"; rm -f "$bak"; fi
 git -C /repo worktree remove --force "$wt"
 rm -rf go/.build/*$(printf '%s' "$wt" | cksum | cut -d' ' -f1)*
 echo "seedtest exit=$e"
